@@ -120,6 +120,17 @@ func runC18(r *run) {
 				f(n, gInt(12345), gInt(w))
 			}
 		}
+		// numbers at and beyond the limits of int64, and tiny ones, through every numeric filter
+		bigs := []*gval{gFloat("0.5"), gFloat("-0.5"), gFloat("0.000001"), gFloat("999999999999999.9"), gFloat("9223372036854775807.0"), gFloat("9223372036854775808.0"),
+			gFloat("-9223372036854775808.0"), gFloat("18446744073709551616.0"), gFloat("100000000000000000000.0"), gFloat("1000000000000000019884624838656.0"),
+			gFloat("-1000000000000000019884624838656.0"), gInt(9223372036854775807), gInt(-9223372036854775807), gStr("1e30"), gStr("9223372036854775808"), gStr("-1e19"), gStr("1.5e3")}
+		for _, n := range []string{"floatformat", "integer", "float", "add", "divisibleby", "get_digit", "pluralize", "filesizeformat", "yesno", "stringformat", "length", "default", "center", "widthratio"} {
+			for _, v := range bigs {
+				for _, pr := range []*gval{gNil(), gInt(0), gInt(-2), gInt(3), gInt(1), gStr("x"), gStr("-2"), gFloat("1.5")} {
+					f(n, v, pr)
+				}
+			}
+		}
 		// parameterless / simple filters over strings, numbers, sequences
 		simple := []string{"first", "last", "length", "make_list", "wordcount", "linenumbers", "linebreaksbr", "capfirst", "upper", "lower", "integer", "float", "pluralize", "title", "phone2numeric", "linebreaks"}
 		vals := []*gval{gNil(), gBool(true), gBool(false), gInt(0), gInt(1), gInt(-3), gInt(42), gFloat("2.5"), gFloat("0.0"), gFloat("3.0"), gFloat("1234.5678")}
